@@ -1,5 +1,6 @@
 // Driver for C20 (fallback prefers the primary and fails over only when it
-// should). Builds the REAL fallback plugin (fallback.Init) over scripted
+// should). Builds the REAL fallback plugin (args decoded by utils.WeakDecode
+// as the plugin loader does, then fallback.Init) over scripted
 // primary/secondary executables and runs one call under a schedule enforced
 // through the verif schedule points "fallback.primary.mid",
 // "fallback.secondary.ready" and "fallback.secondary.send" and through the
@@ -17,6 +18,7 @@ import (
 	"context"
 	"errors"
 	"fmt"
+	"reflect"
 	"runtime"
 	"strconv"
 	"strings"
@@ -25,6 +27,7 @@ import (
 
 	"github.com/IrineSistiana/mosdns/v5/coremain"
 	"github.com/IrineSistiana/mosdns/v5/pkg/query_context"
+	"github.com/IrineSistiana/mosdns/v5/pkg/utils"
 	"github.com/IrineSistiana/mosdns/v5/pkg/verifhook"
 	"github.com/IrineSistiana/mosdns/v5/plugin/executable/sequence"
 	"github.com/IrineSistiana/mosdns/v5/plugin/executable/sequence/fallback"
@@ -108,6 +111,7 @@ type spec struct {
 	errWithResp bool
 	grace       time.Duration
 	sched       string
+	thrMs       int // configured threshold (0 = derive from fires)
 }
 
 func (s *spec) coqPrefix() string {
@@ -125,6 +129,7 @@ type ctl struct {
 	sp      *spec
 	mu      sync.Mutex
 	ev      [nEv]bool
+	evAt    [nEv]time.Time
 	evCh    [nEv]chan struct{}
 	gate    [nGates]chan struct{}
 	gateMu  [nGates]sync.Once
@@ -148,6 +153,7 @@ func (c *ctl) record(e int) {
 	c.mu.Lock()
 	if !c.ev[e] {
 		c.ev[e] = true
+		c.evAt[e] = time.Now()
 		close(c.evCh[e])
 	}
 	c.mu.Unlock()
@@ -299,19 +305,41 @@ type result struct {
 	coq  string
 	desc map[string]any
 	kind string
+	// for the timing cases
+	res string
+	t0  time.Time
+	c   *ctl
 }
 
-func runCase(sp *spec) result {
-	c := newCtl(sp)
+// build makes the plugin the way the loader does: the args arrive as a map
+// (threshold absent when unset), are decoded by utils.WeakDecode into
+// fallback.Args and handed to the registered constructor fallback.Init.
+func build(c *ctl, thrSet bool, thrMs int, standby bool) (any, error) {
 	m := coremain.NewTestMosdnsWithPlugins(map[string]any{
 		"p": &scripted{c: c, prim: true},
 		"s": &scripted{c: c, prim: false},
 	})
+	raw := map[string]any{"primary": "p", "secondary": "s", "always_standby": standby}
+	if thrSet {
+		raw["threshold"] = thrMs
+	}
+	args := new(fallback.Args)
+	if err := utils.WeakDecode(raw, args); err != nil {
+		return nil, err
+	}
+	return fallback.Init(coremain.NewBP("fb", m), args)
+}
+
+func runCase(sp *spec) result {
+	c := newCtl(sp)
 	thr := 60000
 	if sp.fires {
 		thr = 20
 	}
-	p, err := fallback.Init(coremain.NewBP("fb", m), &fallback.Args{Primary: "p", Secondary: "s", Threshold: thr, AlwaysStandby: sp.standby})
+	if sp.thrMs != 0 {
+		thr = sp.thrMs
+	}
+	p, err := build(c, true, thr, sp.standby)
 	if err != nil {
 		return result{coq: sp.coqPrefix() + " OBad", desc: map[string]any{"init": err.Error()}, kind: "bad"}
 	}
@@ -341,10 +369,12 @@ func runCase(sp *spec) result {
 	q.SetQuestion("c20.test.", dns.TypeA)
 	qCtx := query_context.NewContext(q)
 	done := make(chan error, 1)
+	t0 := time.Now()
 	go func() { done <- fb.Exec(ctx, qCtx) }()
 
 	obs := ""
 	kind := ""
+	resOut := ""
 	var snap [nEv]bool
 	select {
 	case err := <-done:
@@ -370,6 +400,7 @@ func runCase(sp *spec) result {
 		} else {
 			obs = hx.App("ORet", res, hx.Bool(snap[evSstarted]), hx.Bool(snap[evSready]), hx.Bool(snap[evSsendhook]), hx.Bool(snap[evPmid]))
 			kind = strings.Trim(res, "()")
+			resOut = res
 		}
 	case <-time.After(4 * time.Second): // below the workers' 5 s default deadline
 		obs, kind = "OHung", "hung"
@@ -377,10 +408,87 @@ func runCase(sp *spec) result {
 	close(c.cleanup)
 	cancel()
 	return result{
+		res: resOut, t0: t0, c: c,
 		coq:  sp.coqPrefix() + " " + obs,
 		kind: kind,
 		desc: map[string]any{"po": sp.po.coq(), "so": sp.so.coq(), "standby": sp.standby, "fires": sp.fires, "dl": sp.dl,
 			"err_with_resp": sp.errWithResp, "grace_ms": sp.grace.Milliseconds()},
+	}
+}
+
+// ---------- the configuration path ----------
+
+// runConf builds the plugin through the real constructor with threshold unset
+// or set to thrMs and reads back what doFallback will use: the duration its
+// threshold timer is armed with and the standby flag.
+func runConf(thrSet bool, thrMs int, standby bool) result {
+	lit := func(obs string) string {
+		cfg := "None"
+		if thrSet {
+			cfg = hx.Some(hx.Z(int64(thrMs)))
+		}
+		return strings.Join([]string{"CConf", cfg, hx.Bool(standby), obs}, " ")
+	}
+	desc := map[string]any{"schedule": "conf", "threshold_set": thrSet, "threshold_ms": thrMs, "standby": standby}
+	p, err := build(newCtl(&spec{}), thrSet, thrMs, standby)
+	if err != nil {
+		desc["init"] = err.Error()
+		return result{coq: lit("None"), desc: desc, kind: "bad"}
+	}
+	v := reflect.ValueOf(p)
+	if v.Kind() == reflect.Pointer {
+		v = v.Elem()
+	}
+	d, sb := v.FieldByName("fastFallbackDuration"), v.FieldByName("alwaysStandby")
+	if !d.IsValid() || !sb.IsValid() || !d.CanInt() || sb.Kind() != reflect.Bool {
+		desc["init"] = "fields fastFallbackDuration / alwaysStandby not found"
+		return result{coq: lit("None"), desc: desc, kind: "bad"}
+	}
+	return result{coq: lit(hx.Some(hx.Tuple(hx.Z(d.Int()), hx.Bool(sb.Bool())))), desc: desc, kind: "ok"}
+}
+
+// runTiming is the only place where wall-clock time is compared: threshold
+// 50 ms configured, the primary produces nothing before the call returns, the
+// secondary answers at once. Observed: whether the threshold had visibly
+// passed (secondary started / released) within 400 ms of the call, and the
+// result. A timer never fires early, so "not within" cannot be wrong for an
+// effective threshold >= 400 ms; "within" for 50 ms has a 350 ms margin and
+// the best of three attempts is reported.
+func runTiming(standby bool) result {
+	const cfgMs, boundMs = 50, 400
+	var r result
+	within := false
+	var best time.Duration = -1
+	for attempt := 0; attempt < 3 && !within; attempt++ {
+		sp := &spec{po: oAns, so: oAns, standby: standby, dl: "DFar", thrMs: cfgMs, sched: "timing",
+			g: gates(cRet, cTrue, cTrue, cTrue, cTrue, cNever), grace: 20 * time.Millisecond}
+		r = runCase(sp)
+		ev := evSstarted
+		if standby {
+			ev = evSsendhook
+		}
+		r.c.mu.Lock()
+		at, seen := r.c.evAt[ev], r.c.ev[ev]
+		r.c.mu.Unlock()
+		if seen {
+			el := at.Sub(r.t0)
+			if best < 0 || el < best {
+				best = el
+			}
+			within = el < boundMs*time.Millisecond
+		}
+		if r.res == "" {
+			break
+		}
+	}
+	res := r.res
+	if res == "" {
+		res = "RFail" // the call hung or returned garbage: reported as a wrong result
+	}
+	return result{
+		coq:  strings.Join([]string{"CTiming", hx.Z(cfgMs), hx.Bool(standby), hx.Z(boundMs), hx.Bool(within), res}, " "),
+		kind: "ok",
+		desc: map[string]any{"schedule": "timing", "standby": standby, "threshold_ms": cfgMs, "bound_ms": boundMs, "best_ms": best.Milliseconds()},
 	}
 }
 
@@ -443,8 +551,9 @@ var templates = []tmpl{
 var outcomes = []outcome{oAns, oNone, oErr}
 
 type job struct {
-	id string
-	sp *spec
+	id  string
+	sp  *spec
+	run func() result // non-nil: a configuration or timing case
 }
 
 func mkSpec(o *hx.Opts, id string, t *tmpl, po, so outcome, sb bool) *spec {
@@ -486,11 +595,35 @@ func main() {
 					for k := 0; k < reps; k++ {
 						id := fmt.Sprintf("cat:%s:%s:%s:%v:%d", t.name, po.coq(), so.coq(), sb, k)
 						if o.Want(id) {
-							jobs = append(jobs, job{id, mkSpec(o, id, t, po, so, sb)})
+							jobs = append(jobs, job{id: id, sp: mkSpec(o, id, t, po, so, sb)})
 						}
 					}
 				}
 			}
+		}
+	}
+	// the configuration path: unset, 0, negative, around the 500 ms default, large
+	for _, thr := range []int{-1, 0, 1, 50, 100, 499, 500, 501, 800, 60000} {
+		for _, sb := range []bool{false, true} {
+			thr, sb := thr, sb
+			set := thr != -1
+			id := fmt.Sprintf("conf:%d:%v", thr, sb)
+			if o.Want(id) {
+				jobs = append(jobs, job{id: id, run: func() result { return runConf(set, thr, sb) }})
+			}
+			if thr < 0 { // a negative configured value
+				id := fmt.Sprintf("conf:neg:%v", sb)
+				if o.Want(id) {
+					jobs = append(jobs, job{id: id, run: func() result { return runConf(true, -5, sb) }})
+				}
+			}
+		}
+	}
+	for _, sb := range []bool{false, true} {
+		sb := sb
+		id := fmt.Sprintf("timing:%v", sb)
+		if o.Want(id) {
+			jobs = append(jobs, job{id: id, run: func() result { return runTiming(sb) }})
 		}
 	}
 	// seeded random: random template and parameters, biased to the non-trivial corner
@@ -501,6 +634,14 @@ func main() {
 			continue
 		}
 		r := hx.NewRNG(o.Seed, id+":pick")
+		if r.Chance(1, 8) { // a random configured threshold
+			thr, sb := r.Range(-3, 1200), r.Bool()
+			if r.Chance(1, 2) {
+				thr = r.Range(1, 499)
+			}
+			jobs = append(jobs, job{id: id, run: func() result { return runConf(true, thr, sb) }})
+			continue
+		}
 		for {
 			t := &templates[r.Intn(len(templates))]
 			po, so, sb := hx.Pick(r, outcomes), hx.Pick(r, outcomes), r.Chance(2, 3)
@@ -508,7 +649,7 @@ func main() {
 				po, so = oAns, oAns
 			}
 			if t.live(po, so, sb) {
-				jobs = append(jobs, job{id, mkSpec(o, id, t, po, so, sb)})
+				jobs = append(jobs, job{id: id, sp: mkSpec(o, id, t, po, so, sb)})
 				break
 			}
 		}
@@ -524,13 +665,19 @@ func main() {
 		go func(i int) {
 			defer wg.Done()
 			defer func() { <-sem }()
-			res[i] = runCase(jobs[i].sp)
+			if jobs[i].run != nil {
+				res[i] = jobs[i].run()
+			} else {
+				res[i] = runCase(jobs[i].sp)
+			}
 		}(i)
 	}
 	wg.Wait()
 	for i, j := range jobs {
 		d := res[i].desc
-		d["schedule"] = j.sp.sched
-		w.Emit(j.sp.sched+"/"+res[i].kind, hx.Case{ID: j.id, Coq: res[i].coq, Desc: d})
+		if j.sp != nil {
+			d["schedule"] = j.sp.sched
+		}
+		w.Emit(fmt.Sprint(d["schedule"])+"/"+res[i].kind, hx.Case{ID: j.id, Coq: res[i].coq, Desc: d})
 	}
 }
